@@ -10,9 +10,13 @@ FFT64, NTT120 = 0, 1
 class Ctx:
     """one machine + the objects of one abstract call"""
 
-    def __init__(self, lib, cpu='accel', expand=False, trusted=None, loop_cap=1 << 22):
+    def __init__(self, lib, cpu='accel', expand=False, trusted=None, loop_cap=1 << 22, values=False):
         self.lib = lib
-        self.m = Machine(lib, cpu=cpu, expand=expand, trusted=trusted, loop_cap=loop_cap)
+        if values:
+            from .vmachine import ValueMachine
+            self.m = ValueMachine(lib, cpu=cpu, trusted=trusted)
+        else:
+            self.m = Machine(lib, cpu=cpu, expand=expand, trusted=trusted, loop_cap=loop_cap)
         self.objs = {}
         self.ctor_events = []
 
